@@ -39,8 +39,13 @@ def _writeTracebackMessage(logger, typ, exception, traceback):
 
     @param traceback: The traceback, a C{str}.
     """
-    msg = TRACEBACK_MESSAGE(reason=exception, traceback=traceback, exception=typ)
-    msg = msg.bind(**_error_extraction.get_fields_for_exception(logger, exception))
+    fields = _error_extraction.get_fields_for_exception(logger, exception)
+    # As for failed actions, the standard fields win over extractor fields of
+    # the same name; otherwise e.g. an "exception" field from an extractor
+    # makes this message unserializable, which is itself reported with a
+    # traceback message, and so on without end.
+    fields.update(reason=exception, traceback=traceback, exception=typ)
+    msg = TRACEBACK_MESSAGE(**fields)
     msg.write(logger)
 
 
